@@ -135,7 +135,8 @@ def run_check(pid, tier, seed, replay=None):
             raise Infra("driver build failed:\n" + build_out[-3000:])
         targets = list(P.LEAN_TARGETS)
         for opt in getattr(P, "OPTIONAL_TARGETS", []):
-            if not any(opt.split(".")[-1] in u for u in (regen.get("unavailable") or [])):
+            optfile = os.path.join(core.LEAN, *opt.split(".")) + ".lean"
+            if os.path.exists(optfile) and not any(opt.split(".")[-1] in u for u in (regen.get("unavailable") or [])):
                 targets.append(opt)
         rc, build_out = core.lake_build(targets)
         if rc != 0:
